@@ -543,6 +543,16 @@ pub mod oneshot {
     pub fn oneshots_created() -> usize {
         unsafe { NOS }
     }
+    /// harness introspection
+    pub fn model_has_value(id: u8) -> bool {
+        (id as usize) < oneshots_created() && os(id).has_value
+    }
+    pub fn model_tx_dropped(id: u8) -> bool {
+        (id as usize) < oneshots_created() && os(id).tx_dropped
+    }
+    pub fn model_rx_dropped(id: u8) -> bool {
+        (id as usize) < oneshots_created() && os(id).rx_dropped
+    }
     #[allow(clippy::mut_from_ref)]
     fn cell<'a, T>(id: u8) -> &'a mut Option<T> {
         unsafe { &mut *(os(id).cell as *mut Option<T>) }
